@@ -354,7 +354,8 @@ static cfg_opt_t *cfg_getopt_secidx(cfg_t *cfg, const char *name,
 
 		opt = cfg_getopt_leaf(sec, name);
 
-		if (!opt && !is_set(CFGF_IGNORE_UNKNOWN, cfg->flags) && !is_set(CFGF_KEYSTRVAL, sec->flags))
+		/* an unknown name directly in a free-form section is a new key to its caller */
+		if (!opt && !is_set(CFGF_IGNORE_UNKNOWN, cfg->flags) && !(sec == cfg && is_set(CFGF_KEYSTRVAL, sec->flags)))
 			cfg_error(cfg, _("no such option '%s'"), name);
 	}
 
